@@ -19,7 +19,7 @@ import (
 	"verif/ref"
 )
 
-var c05Shapes = []string{"first-tx", "grow", "shrink", "multi-segment", "sqlite-rollback", "wal-commit", "wal-restart", "app-checkpoint", "litefs-checkpoint", "drop", "import", "replica-apply", "replica-snapshot", "role-change-recover", "snapshot-over-fork"}
+var c05Shapes = []string{"first-tx", "grow", "shrink", "multi-segment", "sqlite-rollback", "wal-commit", "wal-restart", "app-checkpoint", "litefs-checkpoint", "drop", "import", "replica-apply", "replica-snapshot", "role-change-recover", "snapshot-over-fork", "recreate-first-tx"}
 
 func init() {
 	register(&core.Check{
@@ -515,6 +515,49 @@ func runC05(c *core.Case) {
 		}
 		after = mon.PosOf(n, "db")
 		led.put("db", after, ref.NewImage(ps))
+	case "recreate-first-tx":
+		// the database was deleted; a database is created under the same name and
+		// its first transaction is interrupted: "before" is the deletion's position
+		// (nothing there), "after" the next one - the sequence continues (C15)
+		if !setup(uint32(8+variant%5), 1) {
+			return
+		}
+		w.close()
+		w.conn = nil
+		if err := n.Remove("db"); err != nil {
+			c.Violate("C05/setup", "drop: "+err.Error(), detail)
+			return
+		}
+		before = mon.PosOf(n, "db")
+		led.put("db", before, ref.NewImage(ps))
+		ps2 := ps
+		if variant%2 == 1 {
+			ps2 = map[uint32]uint32{512: 1024, 1024: 4096, 4096: 512, 8192: 4096}[ps]
+		}
+		detail["recreated_page_size"] = ps2
+		w2, err := newWriter(n, "db", ps2, false, jmode, nil, c.SubRng("w2"), led, 1)
+		if err != nil {
+			c.Violate("C05/setup", err.Error(), detail)
+			return
+		}
+		w = w2
+		w.d.BusyRetries = 0
+		w.d.Hook = stepHook
+		rec.setEnabled(true)
+		err = w.ensure(uint32(3 + variant%5))
+		rec.snap("done")
+		rec.setEnabled(false)
+		w.d.Hook = nil
+		if err != nil {
+			healthViolations(c, n, "first tx of the recreated database", detail)
+			if !c.Violated() {
+				c.Violate("C05/operation-failed", err.Error(), detail)
+			}
+			return
+		}
+		after = mon.PosOf(n, "db")
+		led.put("db", after, w.d.M)
+		ps = ps2
 	case "import":
 		if !setup(uint32(8+variant%5), 2) {
 			return
